@@ -66,7 +66,12 @@ def one_run(cfg):
         n.vid = vid[0]
         return n
 
-    if cfg['custom_cb']:
+    if cfg['custom_cb'] == 2:
+        # a DIRECTION-DEPENDENT travel cost (climbing costs three times descending): d(a, b) != d(b, a), so the order in which the planner
+        # hands the two positions to the callback matters
+        dist = (lambda a, b: float(abs(a[0] - b[0]) + abs(a[1] - b[1]) + (3.0 if b[2] > a[2] else 1.0) * abs(a[2] - b[2])))
+        coll = (lambda x, y: (int(round((x.getPosition()[0] + y.getPosition()[0]) * 3)) % 5 == 0))
+    elif cfg['custom_cb']:
         dist = (lambda a, b: float(abs(a[0] - b[0]) + abs(a[1] - b[1]) + abs(a[2] - b[2])))       # Manhattan
         coll = (lambda x, y: (int(round((x.getPosition()[0] + y.getPosition()[0]) * 3)) % 5 == 0))      # striped 'walls'
     else:
@@ -233,7 +238,7 @@ def configs(rnd, n, maxbudget):
     for i in range(n):
         out.append({'seed': rnd.randrange(1 << 30), 'iterations': rnd.choice([1, 1, 2, 3, 5, 10, 30, rnd.randint(1, maxbudget)]),
                     'k': rnd.choice([1, 2, 5, 15, 20]), 'dmode': rnd.choice([0, 1]), 'dmax': rnd.choice([1.0, 2.5, 100.0]), 'dmin': rnd.choice([0.0, 0.1, 0.3]),
-                    'bound': rnd.choice([2.0, 5.0, 10.0]), 'boxes': rnd.randint(0, 12), 'terrain': rnd.random() < 0.15, 'custom_cb': rnd.random() < 0.3, 'walker': rnd.random() < 0.25})
+                    'bound': rnd.choice([2.0, 5.0, 10.0]), 'boxes': rnd.randint(0, 12), 'terrain': rnd.random() < 0.15, 'custom_cb': rnd.choice([0, 0, 0, 0, 1, 1, 2, 2]), 'walker': rnd.random() < 0.25})
     return out
 
 
